@@ -33,8 +33,8 @@ RULE = ('a case = generated graph history (as C07) + pack time + gc + mode; mode
 ASSUMPTIONS = ['crash model: prefix of the recorded operations across the five files in issue order; renames/removes atomic',
                'thread cases: preemption only at the scheduler\'s yield points (ZODB lock/condition operations, storage file '
                'operations, lines of the watched pack/commit/undo functions); schedules are sampled']
-BUDGET = {'quick': {'examples': 2500, 'workers': 8},
-          'thorough': {'examples': 25000, 'workers': 16}}
+BUDGET = {'quick': {'examples': 4000, 'workers': 8},
+          'thorough': {'examples': 30000, 'workers': 16}}
 
 
 def thread_strategy():
